@@ -185,4 +185,26 @@ theorem C01_migrate (env : Env) (s s' : State) (m : MigMsg) (r : Response) (d : 
   · rw [sumBy_map_convert _ _ (bidOwesAny_convert d)]
   · rfl
 
-end Ats.Proofs
+/-- C09 across a migration: every converted bid keeps exactly the fee its event log leaves -/
+theorem C09_migrate_fee (env : Env) (s s' : State) (m : MigMsg) (r : Response)
+    (hd : distinctKeys s.bids = true)
+    (h : migrate env s m = .ok (s', r)) : C09_migrateFeeOK s s' = true := by
+  obtain ⟨_, ⟨v, _, _, hb⟩, _⟩ := migrate_ok h
+  unfold C09_migrateFeeOK
+  rw [List.all_eq_true]
+  intro kv hkv
+  have hget : s.bids.get? kv.1 = some kv.2 := Book.mem_get? (Book.distinct_of_bool hd) (by cases kv; exact hkv)
+  cases he : kv.2 with
+  | v3 b => simp
+  | v2 old =>
+    by_cases hw : (v.geReq 0 16 2 && v.ltReq 0 19 1) = true
+    · have hs' : s'.bids.get? kv.1 = some (.v3 old.convert) := by
+        rw [hb, if_pos hw, get?_map_convert, hget, he]; rfl
+      obtain ⟨_, _, hf, _, _, _, hrem⟩ := C15_convert old
+      have h2 : old.convert.remFee = (v2Remaining old).2.2 := by
+        have := congrArg (fun x => x.2.2) hrem; simpa using this
+      simp [hs', hf, h2]
+    · have hs' : s'.bids.get? kv.1 = some (.v2 old) := by
+        rw [hb, if_neg hw, hget, he]
+      simp [hs']
+
